@@ -40,6 +40,10 @@ SEEDS = {
     "withbb": {"name": "c", "nodes": [["a", "input", False], ["u.p", "bb_input", False], ["u.q", "bb_output", False],
                                       ["c", "buf", True], ["b", "and", False]],
                "edges": [["a", "u.p"], ["u.q", "c"], ["a", "b"]], "bbs": {"u": ["ffd", ["p"], ["q"]]}},
+    # the caller removed the pin node u.p and re-used its name for an ordinary gate (the registry clause exempts u)
+    "replacedpin": {"name": "c", "nodes": [["a", "input", False], ["b", "input", False], ["u.p", "and", False], ["u.q", "bb_output", False],
+                                           ["c", "buf", True]],
+                    "edges": [["a", "u.p"], ["b", "u.p"], ["u.q", "c"]], "bbs": {"u": ["ffd", ["p"], ["q"]]}, "removed_pins": ["u.p"]},
     "nestedpins": {"name": "c", "nodes": [["a", "input", False], ["c", "buf", True], ["d", "buf", True],
                                           ["w.x", "bb_input", False], ["w.f.q", "bb_output", False], ["w.o", "bb_output", False],
                                           ["w2.x", "bb_input", False], ["w2.f.p", "bb_output", False], ["w2.o", "bb_output", False]],
@@ -53,6 +57,10 @@ def alphabet():
     for n in ["a", "b", "", "1x", "u.p"]:
         for t in ["input", "and", "buf", "bb_output", "foo"]:
             ops.append(["add", n, t, None, None, False])
+    # type arguments that differ from a supported type only by case / blanks, or are not strings at all
+    for t in ["AND", "Not", " or", "INPUT", "buf ", 0, 1, None, "Bb_input"]:
+        ops.append(["add", "d", t, None, None, False])
+        ops.append(["add", "d", t, ["a", "b"], None, False])
     ops += [["add", "b", "and", ["a", "zz"], ["c"], False], ["add", "b", "buf", ["a", "c"], None, False],
             ["add", "b", "and", ["a"], ["c"], False], ["add", "b", "not", ["a"], ["a"], False],
             ["add", "a", "and", ["a"], None, True], ["add", "b", "or", None, ["zz"], False],
@@ -116,7 +124,7 @@ def rand_op(rng):
 
 def cases(tier, seed):
     ops = alphabet()
-    for sname in ("empty", "small", "withbb", "nestedpins"):
+    for sname in ("empty", "small", "withbb", "nestedpins", "replacedpin"):
         for o in ops:
             yield {"seed": sname, "ops": [o]}
     pairs = list(itertools.product(range(len(ops)), repeat=2))
@@ -127,7 +135,7 @@ def cases(tier, seed):
         yield {"seed": "small" if (i + j) % 3 else "withbb", "ops": [ops[i], ops[j]]}
     n_rand = 1500 if tier == "quick" else 30000
     for i in range(n_rand):
-        yield {"seed": rng.choice(["empty", "small", "withbb", "nestedpins"]),
+        yield {"seed": rng.choice(["empty", "small", "withbb", "nestedpins", "replacedpin"]),
                "ops": [rand_op(rng) if rng.random() < 0.6 else rng.choice(ops) for _ in range(rng.randint(3, 12))]}
 
 
@@ -155,9 +163,9 @@ def apply(c, op):
 
 def run_case(case):
     c = circ.build(SEEDS[case["seed"]])
-    assert not spec.wired_violations(c)
+    removed_pins = set(SEEDS[case["seed"]].get("removed_pins", []))  # pins the (earlier) caller removed
+    assert not spec.wired_violations(c, removed_pins=removed_pins)
     fails = []
-    removed_pins = set()
     n_ok = n_rej = 0
     for step, op in enumerate(case["ops"]):
         e0 = set(c.graph.edges)
